@@ -220,4 +220,5 @@ func runC06(e *Engine, r *Report) {
 	// ---- client side: release only when applied has reached the index
 	ruleReadRelease(e, r)
 	ruleReadBatchCopy(e, r)
+	ruleSingleNodeQuorum(e, r)
 }
